@@ -14,6 +14,7 @@ import (
 
 func init() {
 	register(&PropertyCheck{ID: "C09", Level: "other", Run: checkC09, Canaries: []Canary{
+		{Name: "identifier-high-bit-masked", Rule: "R9.5", Where: "(*Ident).UnmarshalBinary", Edits: []Edit{{"wiretypes.go", "\t*v = Ident(data[0])", "\t*v = Ident(data[0] & 0x7f)"}}},
 		{Name: "vbi-accepts-unterminated", Rule: "R9.3", Where: "(*vbint).UnmarshalBinary", Edits: []Edit{{"wiretypes.go", "\t\tif encodedByte&128 == 0 {\n\t\t\t*v = vbint(value)\n\t\t\treturn nil\n\t\t}\n\t\tmultiplier = multiplier * 128\n\t}\n\treturn unmarshalErr(v, \"\", \"missing data\")", "\t\tif encodedByte&128 == 0 {\n\t\t\tbreak\n\t\t}\n\t\tmultiplier = multiplier * 128\n\t}\n\t*v = vbint(value)\n\treturn nil"}}},
 		{Name: "vbi-guard-dropped-in-memory", Rule: "R9.3", Where: "(*vbint).UnmarshalBinary", Edits: []Edit{{"wiretypes.go", "\t\tif multiplier > 128*128*128 {\n\t\t\treturn unmarshalErr(v, \"\", \"size exceeded\")\n\t\t}\n", ""}}},
 		{Name: "bool-default-accepts", Rule: "R9.4", Where: "(*wbool).UnmarshalBinary", Edits: []Edit{{"wiretypes.go", "\tdefault:\n\t\treturn fmt.Errorf(\"malformed bool\")\n\t}", "\tdefault:\n\t\t*v = wbool(true)\n\t}"}}},
@@ -382,7 +383,7 @@ func checkVBIDecoder(p *Prog, c *Check, fn *ssa.Function) bool {
 	}
 	// stored value: acc+term, or a phi of such values and the accumulator
 	var cands []ssa.Value
-	v := stripConvs(st.Val)
+	v := p.stripNonNarrowing(st.Val)
 	if ph, ok := v.(*ssa.Phi); ok {
 		cands = append(cands, ph.Edges...)
 	} else {
@@ -493,7 +494,7 @@ func findGeoLoopNoGuard(fn *ssa.Function, v ssa.Value) (*geoLoop, string) {
 		return g, ""
 	}
 	// retry structurally without the guard requirement
-	v = stripConvs(v)
+	v = stripConvsSafe(v)
 	add, ok := v.(*ssa.BinOp)
 	if !ok || add.Op != token.ADD {
 		return nil, why
@@ -666,6 +667,23 @@ func checkPropertyLoop(p *Prog, c *Check, cur *Cursor, scope map[*ssa.Function]b
 			}
 		}
 	}
+	// the identifier compared with the table is the byte on the wire, unchanged
+	if idCell != nil {
+		if pt, ok := idCell.Type().Underlying().(*types.Pointer); ok {
+			if nt := namedOf(pt.Elem()); nt != nil {
+				if d := p.Method(nt.Obj().Name(), "UnmarshalBinary"); d != nil {
+					dc := qname(d) + "#identity"
+					if p.byteDecoderIsIdentity(d) {
+						c.OK("R9.5", dc, p.Pos(d.Pos()), "the identifier decoder stores data[0] unchanged (same-width conversion only)")
+					} else {
+						c.Bad("R9.5", dc, p.Pos(d.Pos()), "the identifier decoder does not store the byte read unchanged: an undefined identifier can be mapped onto a defined one")
+					}
+				} else {
+					c.Unk("R9.5", "identifier decoder", "-", "no UnmarshalBinary for the identifier type "+nt.Obj().Name())
+				}
+			}
+		}
+	}
 	switch {
 	case idRead == nil:
 		c.Unk("R9.5", cons, p.Pos(loopFn.Pos()), "cannot find the read of the property identifier")
@@ -728,4 +746,35 @@ func checkPropertyLoop(p *Prog, c *Check, cur *Cursor, scope map[*ssa.Function]b
 	}
 	c.Measured["accepted_identifier_entries"] = len(seen)
 	c.Floor("accepted identifier entries", len(seen), 27, "27 identifiers are defined; each must be accepted somewhere")
+}
+
+// byteDecoderIsIdentity: every store through the receiver of the one-byte decoder d stores data[0],
+// changed at most by conversions between types of the same width.
+func (p *Prog) byteDecoderIsIdentity(d *ssa.Function) bool {
+	if len(d.Params) < 2 {
+		return false
+	}
+	data := d.Params[1]
+	n := 0
+	for _, b := range d.Blocks {
+		for _, ins := range b.Instrs {
+			st, ok := ins.(*ssa.Store)
+			if !ok || st.Addr != ssa.Value(d.Params[0]) {
+				continue
+			}
+			n++
+			ld, ok := p.stripSameWidth(st.Val).(*ssa.UnOp)
+			if !ok || ld.Op != token.MUL {
+				return false
+			}
+			ia, ok := ld.X.(*ssa.IndexAddr)
+			if !ok || ia.X != ssa.Value(data) {
+				return false
+			}
+			if k, isC := constInt(ia.Index); !isC || k != 0 {
+				return false
+			}
+		}
+	}
+	return n > 0
 }
